@@ -1,7 +1,7 @@
 /- Model driver for C09: Float instantiation of the hand-written CDS kernel model. -/
 import FinVerif.Driver.Util
 import FinVerif.Model.C09F
-open FinVerif FinVerif.Driver FinVerif.Model.C09F
+open FinVerif FinVerif.Driver FinVerif.Model.C09 FinVerif.Model.C09F
 
 /-- parse `n x1 … xn` repeatedly: a list of length-prefixed float arrays -/
 partial def arrays : List String → Option (List (Array Float))
@@ -23,6 +23,30 @@ def step (t : List String) : String :=
   | "PROT" :: teff :: tmat :: rec :: spy :: rest =>
     match floats? [teff, tmat, rec], spy.toNat?, arrays rest with
     | some [teff, tmat, rec], some spy, some [lt, ld, st, sv] => showFloat (protF teff tmat rec spy lt ld st sv)
+    | _, _, _ => "bad-op"
+  | "VAL" :: rec :: spy :: rest =>
+    -- arrays: [teff acc tmat cpn notional long] pay yf lt ld st sv
+    match floats? [rec], spy.toNat?, arrays rest with
+    | some [rec], some spy, some [sc, pay, yf, lt, ld, st, sv] =>
+      if sc.size != 6 || pay.size < 2 || yf.size < 2 then "bad-op" else
+      let c := mkContract sc[0]! sc[1]! sc[2]! sc[3]! sc[4]! (sc[5]! != 0.0) spy pay yf
+      showFloats (valF rec c lt.toList ld.toList st.toList sv.toList)
+    | _, _, _ => "bad-op"
+  | "BOOT" :: rec :: spy :: rest =>
+    -- arrays: lt ld knots probes, then per contract: [teff acc tmat cpn notional long] pay yf
+    match floats? [rec], spy.toNat?, arrays rest with
+    | some [rec], some spy, some (lt :: ld :: knots :: probes :: cas) =>
+      let rec mk : List (Array Float) → Option (List (Contract Float))
+        | [] => some []
+        | sc :: pay :: yf :: more =>
+          if sc.size != 6 || pay.size < 2 || yf.size < 2 then none else
+          (mk more).map fun l => mkContract sc[0]! sc[1]! sc[2]! sc[3]! sc[4]! (sc[5]! != 0.0) spy pay yf :: l
+        | _ => none
+      match mk cas with
+      | some cs =>
+        if knots.size != cs.length || probes.size != 2 * cs.length then "bad-op" else
+        showFloats (bootReplayF rec lt.toList ld.toList cs knots probes)
+      | none => "bad-op"
     | _, _, _ => "bad-op"
   | _ => "bad-op"
 
